@@ -56,10 +56,10 @@ fn spec_accepts(i: u8, data_byte: u8) -> bool {
 }
 const SPEC4: [&str; 4] = ["LittleEndian", "BigEndian", "AnyEndian", "NativeEndian"];
 
-fn open_result(spec: u8, parser: u8, data: &[u8]) -> Result<(), ParseError> {
+fn open_result(spec: u8, parser: u8, data: &[u8], pos0: u64) -> Result<(), ParseError> {
     with_endian!(spec4(spec), |e| match parser {
         0 => open_as(e, data).map(|_| ()),
-        1 => open_stream_as(e, std::io::Cursor::new(data)).map(|_| ()),
+        1 => open_stream_as(e, verif_model::io::Reader::new(data.to_vec()).at_position(pos0)).map(|_| ()),
         _ => {
             fn pi<E: EndianParse>(_e: E, d: &[u8]) -> Result<(), ParseError> {
                 elf::file::parse_ident::<E>(d).map(|_| ())
@@ -108,7 +108,9 @@ fn oracle_ident(case: &[u8], obs: &mut Obs) -> Result<(), String> {
         obs.skip("more_than_one_defect_or_other_valid_value");
         return Ok(());
     };
-    let r = open_result(spec, parser, &data);
+    // the stream is handed over with its cursor at 0, 4 or 16 (a caller that sniffed the ident first)
+    let pos0 = [0u64, 0, 4, 16][(case[3] as usize + case[1] as usize) % 4];
+    let r = open_result(spec, parser, &data, pos0);
     let pname = ["ElfBytes::minimal_parse", "ElfStream::open_stream", "file::parse_ident"][parser as usize];
     let ctx = || format!("{} base file #{} ({} bytes) with {} through {}::<{}>", enc.name(), case[0] as usize % bs.len(), base.len(), what, pname, SPEC4[spec as usize]);
     let ok = match (&r, expect) {
